@@ -134,4 +134,308 @@ theorem chunkRaw_len (cdn : Nat → Nat → Bytes) (dec : Nat → Bytes → Byte
           simp only [total, List.map_cons, List.sum_cons, List.length_append] at this ⊢
           omega
 
+/-! ### inline verification: what is delivered is genuine (given an injective hash) -/
+
+/-- Everything the master DC says about hash windows is true of the genuine file. -/
+structure GenuineTable (sha : Bytes → Bytes) (file : Bytes) (look : Nat → Option FileHash) : Prop where
+  contains : ∀ cur h, look cur = some h → h.offset ≤ cur ∧ cur < h.offset + h.limit
+  hash : ∀ cur h, look cur = some h → h.hash = sha ((file.drop h.offset).take h.limit)
+
+theorem take_drop_file (file : Bytes) (cStart x m : Nat) (hx : cStart ≤ x) :
+    (file.drop x).take m = ((file.drop cStart).drop (x - cStart)).take m := by
+  rw [List.drop_drop]
+  congr 2
+  omega
+
+theorem take_add' (G : Bytes) (a b : Nat) : G.take a ++ (G.drop a).take b = G.take (a + b) := by
+  rw [List.take_add]
+
+theorem take_min_of_pre (d G : Bytes) (p q : Nat) (hq : q ≤ p) (h : d.take p = G.take p) : d.take q = G.take q := by
+  have := congrArg (List.take q) h
+  rw [List.take_take, List.take_take, Nat.min_eq_left hq] at this
+  exact this
+
+/-- The loop invariant: the first `min (cur - cStart) n` bytes of the chunk are the genuine bytes. -/
+theorem verifyLoop_genuine (sha : Bytes → Bytes) (hinj : ∀ a b, sha a = sha b → a = b)
+    (file : Bytes) (look : Nat → Option FileHash) (hg : GenuineTable sha file look)
+    (loadW : FileHash → Except VErr Bytes) (hload : ∀ h w, loadW h = .ok w → sha w = h.hash)
+    (cStart : Nat) (short : Bool) (n : Nat) :
+    ∀ (f cur : Nat) (d d' : Bytes), d.length = n → cStart ≤ cur →
+      d.take (min (cur - cStart) n) = (file.drop cStart).take (min (cur - cStart) n) →
+      min (cur - cStart) n ≤ (file.drop cStart).length →
+      (cStart + n - cur) < f →
+      verifyLoop sha look loadW cStart short f cur d = .ok d' →
+      d' = (file.drop cStart).take n ∧ n ≤ (file.drop cStart).length := by
+  intro f
+  induction f with
+  | zero => intro cur d d' _ _ _ _ hf; omega
+  | succ f ih =>
+    intro cur d d' hlen hcur hpre hfit hfuel hrun
+    rw [verifyLoop] at hrun
+    simp only [hlen] at hrun
+    by_cases hend : cur ≥ cStart + n
+    · -- the whole chunk has been covered
+      rw [if_pos hend] at hrun
+      cases hrun
+      have hmin : min (cur - cStart) n = n := by omega
+      rw [hmin] at hfit hpre
+      refine ⟨?_, hfit⟩
+      rw [← hpre, ← hlen, List.take_length]
+    · rw [if_neg hend] at hrun
+      have hmin : min (cur - cStart) n = cur - cStart := by omega
+      rw [hmin] at hfit hpre
+      cases hl : look cur with
+      | none => simp [hl] at hrun
+      | some h =>
+        simp only [hl] at hrun
+        obtain ⟨hc1, hc2⟩ := hg.contains cur h hl
+        have hhash := hg.hash cur h hl
+        by_cases hz : h.limit = 0
+        · rw [if_pos hz] at hrun; cases hrun
+        · rw [if_neg hz] at hrun
+          by_cases hbw : h.offset + h.limit ≤ cur
+          · rw [if_pos hbw] at hrun; cases hrun
+          · rw [if_neg hbw] at hrun
+            have hG : ∀ x m, cStart ≤ x → (file.drop x).take m = ((file.drop cStart).drop (x - cStart)).take m :=
+              fun x m hx => take_drop_file file cStart x m hx
+            by_cases hfull : h.offset ≥ cStart ∧ h.offset + h.limit ≤ cStart + n
+            · -- full window inside the chunk
+              rw [if_pos hfull] at hrun
+              by_cases hs : sha ((d.drop (h.offset - cStart)).take (h.offset + h.limit - h.offset)) = h.hash
+              · rw [if_pos hs] at hrun
+                rw [hhash] at hs
+                have heq := hinj _ _ hs
+                have hl1 : h.offset + h.limit - h.offset = h.limit := by omega
+                rw [hl1] at heq
+                have hWlen : ((file.drop h.offset).take h.limit).length = h.limit := by
+                  rw [← heq]
+                  simp only [List.length_take, List.length_drop, hlen]
+                  omega
+                rw [hG h.offset h.limit hfull.1] at heq hWlen
+                have hmin' : min (h.offset + h.limit - cStart) n = (h.offset - cStart) + h.limit := by omega
+                refine ih (h.offset + h.limit) d d' hlen (by omega) ?_ ?_ (by omega) hrun
+                · rw [hmin', ← take_add', ← take_add', heq]
+                  congr 1
+                  exact take_min_of_pre d _ _ _ (by omega) hpre
+                · rw [hmin']
+                  simp only [List.length_take, List.length_drop] at hWlen ⊢
+                  omega
+              · rw [if_neg hs] at hrun; cases hrun
+            · rw [if_neg hfull] at hrun
+              by_cases htail : short = true ∧ h.offset ≥ cStart ∧ h.offset < cStart + n ∧ h.offset + h.limit > cStart + n
+              · -- final short chunk: the hash covers the remaining tail
+                rw [if_pos htail] at hrun
+                by_cases hs : sha (d.drop (h.offset - cStart)) = h.hash
+                · rw [if_pos hs] at hrun
+                  cases hrun
+                  rw [hhash] at hs
+                  have heq := hinj _ _ hs
+                  rw [hG h.offset h.limit htail.2.1] at heq
+                  have hpre' : d.take (h.offset - cStart) = (file.drop cStart).take (h.offset - cStart) :=
+                    take_min_of_pre d _ _ _ (by omega) hpre
+                  have hd : d = (file.drop cStart).take (h.offset - cStart + h.limit) := by
+                    rw [← take_add', ← heq, ← hpre']
+                    exact (List.take_append_drop _ _).symm
+                  have hlen' := congrArg List.length hd
+                  rw [hlen, List.length_take] at hlen'
+                  constructor
+                  · rw [hd]
+                    by_cases hle : h.offset - cStart + h.limit ≤ (file.drop cStart).length
+                    · have : n = h.offset - cStart + h.limit := by omega
+                      rw [← this]
+                    · have hn : n = (file.drop cStart).length := by omega
+                      rw [List.take_of_length_le (by omega), List.take_of_length_le (by omega)]
+                  · omega
+                · rw [if_neg hs] at hrun; cases hrun
+              · rw [if_neg htail] at hrun
+                -- window crosses the chunk: load and verify it, patch the overlap
+                cases hw : loadW h with
+                | error e => simp [hw] at hrun
+                | ok w =>
+                  simp only [hw] at hrun
+                  have hwsha := hload h w hw
+                  rw [hhash] at hwsha
+                  have hwW := hinj _ _ hwsha
+                  have hwl1 : w.length ≤ h.limit := by
+                    rw [hwW]; simp only [List.length_take]; omega
+                  have hwl2 : w.length = 0 ∨ h.offset + w.length ≤ file.length := by
+                    rw [hwW]; simp only [List.length_take, List.length_drop]; omega
+                  simp only [Facts.C34.rejectsBeyondTail, Facts.C34.rejectsTruncatedSplit, Bool.true_and] at hrun
+                  by_cases hbt : h.offset + w.length < h.offset + h.limit ∧ h.offset + w.length < cStart + n
+                  · simp [hbt] at hrun
+                  · rw [if_neg (by simpa using hbt)] at hrun
+                    by_cases hts : (short && decide (h.offset + w.length > cStart + n)) = true
+                    · rw [if_pos hts] at hrun; cases hrun
+                    · rw [if_neg hts] at hrun
+                      generalize hoS : (if h.offset > cStart then h.offset else cStart) = oS at hrun
+                      generalize hoE : (if h.offset + w.length < cStart + n then h.offset + w.length else cStart + n) = oE at hrun
+                      by_cases hov : oE ≤ oS
+                      · rw [if_pos hov] at hrun; cases hrun
+                      · rw [if_neg hov] at hrun
+                        have hoS1 : cStart ≤ oS ∧ h.offset ≤ oS ∧ oS ≤ cur := by
+                          rw [← hoS]; split <;> omega
+                        have hoE1 : oE ≤ cStart + n ∧ oE ≤ h.offset + w.length ∧
+                            ((oE = cStart + n ∧ cStart + n ≤ h.offset + h.limit) ∨
+                             (oE = h.offset + h.limit ∧ h.offset + h.limit < cStart + n)) := by
+                          rw [← hoE]; split <;> omega
+                        have hwfile : h.offset + w.length ≤ file.length := by
+                          rcases hwl2 with h0 | h0
+                          · omega
+                          · exact h0
+                        have hGlen : (file.drop cStart).length = file.length - cStart := List.length_drop
+                        have hmid : (w.drop (oS - h.offset)).take (oE - oS) =
+                            ((file.drop cStart).drop (oS - cStart)).take (oE - oS) := by
+                          rw [hwW, List.drop_take, List.take_take, List.drop_drop, List.drop_drop]
+                          congr 1
+                          · omega
+                          · congr 1; omega
+                        have hpS : d.take (oS - cStart) = (file.drop cStart).take (oS - cStart) :=
+                          take_min_of_pre d _ _ _ (by omega) hpre
+                        have hX : d.take (oS - cStart) ++ (w.drop (oS - h.offset)).take (oE - oS) =
+                            (file.drop cStart).take (oE - cStart) := by
+                          rw [hmid, hpS, take_add']
+                          congr 1; omega
+                        have hXlen : ((file.drop cStart).take (oE - cStart)).length = oE - cStart := by
+                          rw [List.length_take, hGlen]; omega
+                        have hmin' : min (h.offset + h.limit - cStart) n = oE - cStart := by
+                          rcases hoE1.2.2 with hE | hE <;> omega
+                        refine ih (h.offset + h.limit)
+                          (d.take (oS - cStart) ++ (w.drop (oS - h.offset)).take (oE - oS) ++ d.drop (oE - cStart))
+                          d' ?_ (by omega) ?_ ?_ (by omega) hrun
+                        · rw [hX, List.length_append, hXlen, List.length_drop, hlen]
+                          omega
+                        · rw [hmin', hX, List.take_append_of_le_length (by omega), List.take_take, Nat.min_self]
+                        · rw [hmin', hGlen]; omega
+
+theorem verifyChunk_genuine (sha : Bytes → Bytes) (hinj : ∀ a b, sha a = sha b → a = b)
+    (file : Bytes) (look : Nat → Option FileHash) (hg : GenuineTable sha file look)
+    (loadW : FileHash → Except VErr Bytes) (hload : ∀ h w, loadW h = .ok w → sha w = h.hash)
+    (offset reqLimit : Nat) (data d' : Bytes)
+    (h : verifyChunk sha look loadW true offset reqLimit data = .ok d') :
+    d'.length = data.length ∧ (d' = [] ∨ (d' = (file.drop offset).take d'.length ∧ d'.length ≤ (file.drop offset).length)) := by
+  unfold verifyChunk at h
+  by_cases he : data.isEmpty = true
+  · simp only [Bool.not_true, he, Bool.or_true, if_true, Except.ok.injEq] at h
+    subst h
+    exact ⟨rfl, Or.inl (List.isEmpty_iff.mp he)⟩
+  · simp only [Bool.not_true, he, Bool.or_self, Bool.false_eq_true, if_false] at h
+    have := verifyLoop_genuine sha hinj file look hg loadW hload offset _ data.length (data.length + 1) offset data d'
+      rfl (Nat.le_refl _) (by simp) (by simp) (by omega) h
+    have hl : d'.length = data.length := by
+      rw [this.1, List.length_take]; omega
+    exact ⟨hl, Or.inr ⟨by rw [hl]; exact this.1, by rw [hl]; exact this.2⟩⟩
+
+/-- One part of an inline-verified CDN download: whatever the CDN answered, a part that is delivered is
+at most as long as requested and consists of the genuine bytes at its offset. -/
+theorem chunkCDN_genuine (sha : Bytes → Bytes) (hinj : ∀ a b, sha a = sha b → a = b)
+    (file : Bytes) (look : Nat → Option FileHash) (hg : GenuineTable sha file look)
+    (cdn : Nat → Nat → Bytes) (dec : Nat → Bytes → Bytes) (depth offset limit : Nat) (d : Bytes)
+    (h : chunkCDN sha cdn dec look true depth offset limit = .ok d) :
+    d.length ≤ limit ∧ d = (file.drop offset).take d.length ∧ d.length ≤ (file.drop offset).length := by
+  cases depth with
+  | zero => simp [chunkCDN] at h
+  | succ depth =>
+    rw [chunkCDN] at h
+    cases hp : buildPlan (offset : Int) (limit : Int) with
+    | error e => simp [hp] at h
+    | ok plan =>
+      simp only [hp] at h
+      cases hr : chunkRaw cdn dec plan with
+      | error e => simp [hr] at h
+      | ok data =>
+        simp only [hr] at h
+        have hlenraw := chunkRaw_len cdn dec plan data hr
+        obtain ⟨_, _, _, _, hpl⟩ := buildPlan_aligned _ _ plan hp
+        obtain ⟨rs', hrs, _, ht, _⟩ := planLoop_spec ((limit : Int).toNat / 4096 + 1) (offset : Int).toNat (limit : Int).toNat
+          (by have := buildPlan_aligned _ _ plan hp; omega) (by have := buildPlan_aligned _ _ plan hp; omega) (by omega)
+        rw [hpl] at hrs
+        cases hrs
+        have hv := verifyChunk_genuine sha hinj file look hg _ (by
+          intro hh w hw
+          -- `loadAndVerifyWindow` returns only data whose hash was compared
+          split at hw
+          · cases hw
+          · split at hw
+            · cases hw
+            · split at hw
+              · rename_i hsha; cases hw; exact hsha
+              · cases hw) offset limit data d h
+        have hdl : d.length ≤ limit := by
+          rw [hv.1]
+          have : total plan = limit := by simpa using ht
+          omega
+        rcases hv.2 with h0 | h1
+        · subst h0; simp
+        · exact ⟨hdl, h1.1, h1.2⟩
+
+/-- A completed inline-verified stream is a prefix of the genuine file. -/
+theorem streamChunks_prefix (file : Bytes) (ps : Nat)
+    (chunk : Nat → Nat → Except VErr Bytes)
+    (hchunk : ∀ off d, chunk off ps = .ok d →
+      d.length ≤ ps ∧ d = (file.drop off).take d.length ∧ d.length ≤ (file.drop off).length) :
+    ∀ (fuel k : Nat), (streamChunks chunk ps fuel k).err = none →
+      ∃ m, (streamChunks chunk ps fuel k).data = (file.drop (k * ps)).take m := by
+  intro fuel
+  induction fuel with
+  | zero => intro k _; exact ⟨0, by simp [streamChunks]⟩
+  | succ fuel ih =>
+    intro k herr
+    rw [streamChunks] at herr ⊢
+    cases hc : chunk (k * ps) ps with
+    | error e => simp [hc] at herr
+    | ok d =>
+      simp only [hc] at herr ⊢
+      obtain ⟨h1, h2, h3⟩ := hchunk (k * ps) d hc
+      by_cases he : d.length < 1
+      · simp only [he, if_true]; exact ⟨0, by simp⟩
+      · simp only [he, if_false] at herr ⊢
+        by_cases hs : d.length < ps
+        · simp only [hs, if_true]; exact ⟨d.length, h2⟩
+        · simp only [hs, if_false] at herr ⊢
+          obtain ⟨m, hm⟩ := ih (k + 1) herr
+          refine ⟨ps + m, ?_⟩
+          have hd : d.length = ps := by omega
+          rw [hm, h2, hd, ← take_add', List.drop_drop]
+          congr 3
+          rw [Nat.add_mul]; omega
+
+/-! ### verifier queue -/
+
+/-- Every block a verified (`WithVerify(true)`) stream delivers was compared with a server-provided
+hash: the output is a concatenation of blocks each hashing to the value obtained from the hash service. -/
+theorem hashedStream_verified (sha : Bytes → Bytes) (hs : Nat → List FileHash)
+    (chunk : Nat → Nat → Except VErr Bytes) :
+    ∀ (fuel : Nat) (v : VState), (hashedStream sha hs chunk fuel v).err = none →
+      ∃ blocks : List (FileHash × Bytes),
+        (hashedStream sha hs chunk fuel v).data = (blocks.map (·.2)).flatten ∧
+        ∀ b ∈ blocks, sha b.2 = b.1.hash ∧ chunk b.1.offset b.1.limit = .ok b.2 := by
+  intro fuel
+  induction fuel with
+  | zero => intro v _; exact ⟨[], by simp [hashedStream], by intro b hb; simp at hb⟩
+  | succ fuel ih =>
+    intro v herr
+    rw [hashedStream] at herr ⊢
+    cases hn : vNext hs v with
+    | mk v' oh =>
+      cases oh with
+      | none => exact ⟨[], by simp, by intro b hb; simp at hb⟩
+      | some h =>
+        simp only [hn] at herr ⊢
+        cases hc : chunk h.offset h.limit with
+        | error e => simp [hc] at herr
+        | ok d =>
+          simp only [hc] at herr ⊢
+          by_cases hsha : sha d = h.hash
+          · simp only [hsha, if_true] at herr ⊢
+            by_cases he : d.length < 1
+            · simp only [he, if_true]; exact ⟨[], by simp, by intro b hb; simp at hb⟩
+            · simp only [he, if_false] at herr ⊢
+              obtain ⟨bs, hb1, hb2⟩ := ih v' herr
+              refine ⟨(h, d) :: bs, by simp [hb1], ?_⟩
+              intro b hb
+              rcases List.mem_cons.mp hb with hb | hb
+              · subst hb; exact ⟨hsha, hc⟩
+              · exact hb2 b hb
+          · simp [hsha] at herr
+
 end TdModel.C34
